@@ -10,6 +10,7 @@ import (
 	"github.com/krotik/ecal/parser"
 	"github.com/krotik/ecal/util"
 	"simrt"
+	"simrt/simsync"
 )
 
 // C15 — debugging only observes: same outcome, and every suspended thread can be resumed.
@@ -171,8 +172,14 @@ func dbgProgram(p *dbgPlan) (string, bool) {
 			// a call on a function result whose argument list continues on the next line
 			fmt.Fprintf(&b, "obj%d := {\"mk\": func () {\n    return {\"add\": func (a) {\n        return a + %d\n    }}\n}}\nres%d := obj%d.mk().add(\n    inc(%d) + 1)\nlog(\"res%d=\", res%d)\n", i, c, i, i, c, i, i)
 		case "errdata":
-			fmt.Fprintf(&b, "func ed%d(a) {\n    let loc := [a, {2: a}]\n    raise(\"ErrD%d\", \"d\", {1: %d, \"l\": [a]})\n}\n", i, i, c)
-			fmt.Fprintf(&b, "try {\n    ed%d(%d)\n} except \"ErrD%d\" as err {\n    log(\"caught \", err.type)\n}\n", i, c, i)
+			if c%2 == 0 {
+				fmt.Fprintf(&b, "func ed%d(a) {\n    let loc := [a, {2: a}]\n    raise(\"ErrD%d\", \"d\", {1: %d, \"l\": [a]})\n}\n", i, i, c)
+				fmt.Fprintf(&b, "try {\n    ed%d(%d)\n} except \"ErrD%d\" as err {\n    log(\"caught \", err.type)\n}\n", i, c, i)
+			} else {
+				// an error without type, detail or data
+				fmt.Fprintf(&b, "func ed%d(a) {\n    let loc := [a, {2: a}]\n    raise()\n}\n", i)
+				fmt.Fprintf(&b, "try {\n    ed%d(%d)\n} except {\n    log(\"caught untyped\")\n}\n", i, c)
+			}
 		case "sinks":
 			sinks = true
 			b.WriteString("total := 0\n")
@@ -297,6 +304,34 @@ func dbgExec(p *dbgPlan, src string, withDebugger bool, prop string) dbgOutcome 
 	})
 	// the debugger client: polls status and resumes every suspended thread with a
 	// command chosen by the scheduler, at an instant chosen by the scheduler
+	var clients simsync.WaitGroup
+	stopClients := false
+	if prop == "C16" && p.Garbage {
+		// a second debugger client (the debug server serves every connection on its own
+		// goroutine): resumes suspended threads - also the command thread of the first
+		// client, should an injected expression stop at a breakpoint - and inspects state
+		clients.Add(1)
+		simrt.Go("client2", func() {
+			defer clients.Done()
+			// keeps going until the first client has returned from its last command (which
+			// may itself be suspended as the command thread of an injected expression)
+			for !stopClients {
+				for _, tid := range dbgSuspended(dbg, prop) {
+					if simrt.ChooseP(0.3) {
+						dbgCmd(dbg, prop, fmt.Sprintf("describe %d", tid))
+					}
+					if simrt.ChooseP(0.7) {
+						simrt.Count("fault_debug_second_client_cont")
+						dbgCmd(dbg, prop, fmt.Sprintf("cont %d %s", tid, []string{"resume", "stepover", "stepin", "stepout"}[simrt.Choose(4)]))
+					}
+				}
+				if simrt.ChooseP(0.1) {
+					dbgCmd(dbg, prop, "lockstate")
+				}
+				simrt.Yield()
+			}
+		})
+	}
 	round := 0
 	idleRounds := 0
 	for !mainDone {
@@ -326,7 +361,7 @@ func dbgExec(p *dbgPlan, src string, withDebugger bool, prop string) dbgOutcome 
 			// a thread reported as suspended must be released by the continue addressed to
 			// it: a second continue for the same suspension (no debugger hook entered by the
 			// thread in between) means the first one was lost
-			if last, ok := st.lastCont[tid]; ok && last == st.progress[tid] {
+			if last, ok := st.lastCont[tid]; ok && last == st.progress[tid] && prop == "C15" {
 				simrt.Fail("oracle:thread-not-resumed", "continue-did-not-release",
 					"thread %d is still reported as suspended at the same place after a continue command was addressed to it (the command was consumed, the thread was not released)", tid)
 			}
@@ -344,7 +379,7 @@ func dbgExec(p *dbgPlan, src string, withDebugger bool, prop string) dbgOutcome 
 		if prop == "C16" && p.Garbage && simrt.ChooseP(0.3) {
 			dbgCmd(dbg, prop, dbgGarbage(suspended))
 		}
-		if prop == "C16" && p.Garbage && len(suspended) > 0 && simrt.ChooseP(0.3) && dbgCallIsSafe(dbg) {
+		if prop == "C16" && p.Garbage && len(suspended) > 0 && simrt.ChooseP(0.3) {
 			// an expression that calls a function of the debugged program; only sent
 			// when the evaluating (command) thread cannot itself hit a breakpoint,
 			// because nobody else could resume it in this set-up
@@ -369,6 +404,8 @@ func dbgExec(p *dbgPlan, src string, withDebugger bool, prop string) dbgOutcome 
 		}
 		simrt.Yield()
 	}
+	stopClients = true
+	clients.Wait()
 	if prop == "C16" && p.Garbage {
 		for i := 0; i < 3; i++ {
 			dbgCmd(dbg, prop, dbgGarbage(nil)) // state "finished"
